@@ -7,7 +7,9 @@
 (* object either becomes Valid(g) or the call is Rejected and nothing is created.   *)
 EXTENDS Grids, TLC, Json, IOUtils, SequencesExt
 
-QuatShapes  == {"v3", "v4", "v2", "v5", "m1x4", "scalar", "empty"}          \* for Quaternion(...)
+(* the same 3- / 4-vector as a read-only array or as a strided view (a column of a table of samples) *)
+QuatLayoutShapes == {"v4[read-only]", "v4[strided-view]", "v3[strided-view]"}
+QuatShapes  == {"v3", "v4", "v2", "v5", "m1x4", "scalar", "empty"} \cup QuatLayoutShapes         \* for Quaternion(...)
 (* (an empty (0,4) array holds no invalid rotation: not a table row) *)
 (* the same N-by-3 / N-by-4 content in another memory layout: Fortran order, a strided view of a larger array *)
 LayoutShapes == {"N4[F-order]", "N3[F-order]", "N4[strided-view]"}
@@ -23,15 +25,16 @@ VersorFlags == {TRUE, FALSE}
 MatClasses  == {"rotation", "rotation+1e-12", "reflection", "scaled-up", "scaled-down", "sheared",
                 "non-orthogonal", "nan-entry", "inf-entry", "zero", "2x2", "3x3x3-bad", "stack-of-rotations",
                 "stack-one-reflection", "stack-of-rotations[F-order]",
-                "rotation[F-order]", "rotation[transposed-view]", "rotation[strided-view]", "rotation[int-dtype]", "rotation[read-only]"}
+                "rotation[F-order]", "rotation[transposed-view]", "rotation[strided-view]", "rotation[int-dtype]", "rotation[read-only]", "rotation[list-of-lists]"}
 (* a proper rotation handed over in another memory layout or element type (content unchanged): Fortran order, a   *)
 (* transposed view (R.T of the transpose), a strided view of a larger array, integer dtype (signed permutation     *)
 (* matrices), a read-only array                                                                                     *)
-LayoutClasses == {"rotation[F-order]", "rotation[transposed-view]", "rotation[strided-view]", "rotation[int-dtype]", "rotation[read-only]"}
+LayoutClasses == {"rotation[F-order]", "rotation[transposed-view]", "rotation[strided-view]", "rotation[int-dtype]", "rotation[read-only]",
+                  "rotation[list-of-lists]"}
 DcmRoutes   == {"matrix", "q=", "x=", "y=", "z=", "xyz=", "rpy=", "euler=", "axang="}
 
 (* ------------------------------ decision table ------------------------------ *)
-QuatAccepts(shape, fill)  == shape \in {"v3", "v4"} /\ fill = "finite"
+QuatAccepts(shape, fill)  == shape \in {"v3", "v4"} \cup QuatLayoutShapes /\ fill = "finite"
 ArrayAccepts(shape, fill) == shape \in {"N3", "N4"} \cup LayoutShapes /\ fill = "finite"
 MatAccepts(mc)            == mc \in {"rotation", "rotation+1e-12", "stack-of-rotations", "stack-of-rotations[F-order]"} \cup LayoutClasses
 
@@ -64,12 +67,12 @@ Spec == Init /\ [][Next]_vars
 
 (* the property: nothing that cannot be a rotation is ever wrapped *)
 OnlyRotations == out = "valid" =>
-                   \/ call.ctor = "Quaternion" /\ call.fill = "finite" /\ call.shape \in {"v3", "v4"}
+                   \/ call.ctor = "Quaternion" /\ call.fill = "finite" /\ call.shape \in {"v3", "v4"} \cup QuatLayoutShapes
                    \/ call.ctor = "QuaternionArray" /\ call.fill = "finite" /\ call.shape \in {"N3", "N4"} \cup LayoutShapes
                    \/ call.ctor \in MatCtors /\ call.mc \notin {"reflection", "scaled-up", "scaled-down", "sheared", "non-orthogonal",
                                                           "nan-entry", "inf-entry", "2x2", "3x3x3-bad", "stack-one-reflection"}
 (* and every finite, non-zero vector of either admissible shape is accepted, whatever its magnitude *)
 AllDirectionsAccepted == (call.ctor \in {"Quaternion", "QuaternionArray"} /\ call.fill = "finite"
-                          /\ call.shape \in {"v3", "v4", "N3", "N4"} \cup LayoutShapes /\ ~(call.ctor = "QuaternionArray" /\ call.shape = "v4")
+                          /\ call.shape \in {"v3", "v4", "N3", "N4"} \cup LayoutShapes \cup QuatLayoutShapes /\ ~(call.ctor = "QuaternionArray" /\ call.shape \in {"v4"} \cup QuatLayoutShapes)
                           /\ ~(call.ctor = "Quaternion" /\ call.shape \in {"N3", "N4"} \cup LayoutShapes)) => out = "valid"
 =============================================================================
